@@ -59,3 +59,22 @@ Example C09_example :
   trim_prefix fold121 [226; 132; 170; 120] [107] = (3, 4) /\
   trim_suffix fold121 [120; 197; 191] [83] = (0, 1).
 Proof. vm_compute. auto. Qed.
+
+(* ---- the code's algorithms (structure-faithful model Impl.v, both package
+   shapes) compute exactly these Spec functions, on all byte strings ---- *)
+From Strcase Require Import Impl Instances.
+
+Theorem C09_hasprefix_refines : forall p s t, wf s -> wf t ->
+  HasPrefix fold121 (lower_pkg p) p s t = Ok (has_prefix fold121 s t).
+Proof. exact hasprefix_refines121. Qed.
+Print Assumptions C09_hasprefix_refines.
+
+Theorem C09_trimprefix_refines : forall p s t, wf s -> wf t ->
+  TrimPrefix fold121 (lower_pkg p) p s t = Ok (trim_prefix fold121 s t).
+Proof. exact trimprefix_refines121. Qed.
+Print Assumptions C09_trimprefix_refines.
+
+Theorem C09_cutprefix_refines : forall p s t, wf s -> wf t ->
+  CutPrefix fold121 (lower_pkg p) p s t = Ok (cut_prefix fold121 s t).
+Proof. exact cutprefix_refines121. Qed.
+Print Assumptions C09_cutprefix_refines.
